@@ -374,6 +374,9 @@ func execC34(t *testing.T, scAny any, keepLog bool) *Outcome {
 						if err == nil && n == len(p) && (sd.closedAt < 0 || idx < sd.closedAt) {
 							sd.writes[idx].OK = true
 						}
+						if err == nil && n != len(p) {
+							torn = fmt.Sprintf("side %d: Write of %d bytes returned (%d, nil)", tk.Side, len(p), n)
+						}
 						if err == nil && sd.timedOut != "" {
 							// documented: "After a Write has timed out, the TLS state is corrupt and all future writes will return the same error."
 							ackAfterTimeout = fmt.Sprintf("side %d: Write of %d bytes returned success after an earlier Write had timed out (%s)", tk.Side, len(p), sd.timedOut)
